@@ -396,11 +396,17 @@ class SchedDriver:
              mock.patch.object(ru.zmq, 'RegistryClient', mock.MagicMock()), \
              mock.patch.object(self.sbase.ru, 'lazy_bisect', bisect), \
              mock.patch.object(self.sbase.time, 'sleep', lambda x: None):
-            s._schedule_tasks()
+            died = None
+            try:
+                s._schedule_tasks()
+            except Exception as e:          # noqa -- the loop must survive whatever a task asks for
+                died = '%s: %s' % (type(e).__name__, e)
+                if eff and eff[-1] == ['iter'] and len(snaps) < sum(1 for o in eff if o[0] == 'iter'):
+                    snaps.append(drv.snapshot())      # what the dying iteration had done
         for sc, us in pending:
             sc.finish()
         # events of trailing ops (after the last iter) are dropped with them
-        return {'eff': eff, 'snaps': snaps}
+        return {'eff': eff, 'snaps': snaps, 'died': died}
 
 
 # ------------------------------------------------------------------------------
